@@ -29,6 +29,8 @@ def run_c15(rep, tier):
         open(d + "/a.go", "w").write(A_GO)
         src = open(V + "/harness/gosrc/corpus/wire.go.txt").read()
         open(d + "/wire.go", "w").write(src)
+        src2 = open(V + "/harness/gosrc/corpus/wire2.go.txt").read()
+        open(d + "/wire2.go", "w").write(src2)
         open(ws.root + "/cmd/run/main.go", "w").write(MAIN)
         rc0, out0, err0 = run(["go", "run", "-tags", "wireinject", "./cmd/run"], cwd=ws.root, env=dict(GOENV), timeout=300)
         if rc0 != 0:
@@ -42,8 +44,9 @@ def run_c15(rep, tier):
         gen = d + "/wire_gen.go"
         ir = R.irparse([gen])[gen]
         srcir = R.irparse([d + "/wire.go"])[d + "/wire.go"]
-        want = [o for o in srcir["order"] if o != "func:Init"]
-        got = [o for o in ir["order"] if o != "func:Init"]
+        srcir2 = R.irparse([d + "/wire2.go"])[d + "/wire2.go"]
+        want = [o for o in srcir["order"] + srcir2["order"] if o not in ("func:Init", "func:Init2")]
+        got = [o for o in ir["order"] if o not in ("func:Init", "func:Init2")]
         if want != got:
             fails.append({"stream": "c15", "why": ["copied declarations are not the source's declarations once each, in order: source %s, generated %s" % (want, got)]})
         rep.coverage["c15_decls"] = len(want)
